@@ -15,23 +15,23 @@ BROKER_NOTE = "Operations and views go through MemBrokerService (the object behi
 CHECKS = {
  "C01": dict(engine="brokersim", category="exploration", design="DESIGN.md §3 C01",
    technique="property-based testing (proptest): invariant over generated broker operation histories, evaluated after every step",
-   text="Generated histories (vec(op)+interpreter, operands picked from the current state) of every admin operation over generated host layouts, migration limits 0..3 and ordered mode; after every step the served cluster view and every per-proxy view are decoded from JSON and checked against an independent 16384-entry owner array, the migrating/importing twin rule and the projection rule.",
+   text="Generated histories (vec(op)+interpreter, operands picked from the current state) of every admin operation over generated host layouts, migration limits 0..3 and ordered mode; after every step the served cluster view and every per-proxy view are decoded from JSON and checked against an independent 16384-entry owner array, the migrating/importing twin rule and the projection rule. Plus a bounded-exhaustive sub-check: every sequence of 3 (quick) / 5 (thorough) operations over a reduced 15-operation alphabet on a fixed 8-proxy layout, migration_limit 0 and 1.",
    note=BROKER_NOTE),
  "C04": dict(engine="brokersim", category="exploration", design="DESIGN.md §3 C04",
    technique="property-based testing (proptest): history invariant (epoch monotone, strictly increasing on content change) over generated operation histories",
-   text="Same generated histories; after every operation each registered address' served view is compared with the last view ever served for it: epoch never decreases, strictly increases when anything else differs; global epoch monotone.",
+   text="Same generated histories; after every operation each registered address' served view is compared with the last view ever served for it: epoch never decreases, strictly increases when anything else differs; global epoch monotone. Plus the bounded-exhaustive small-scope histories (all sequences of 3/5 operations over a 15-operation alphabet).",
    note=BROKER_NOTE),
  "C06": dict(engine="brokersim", category="exploration", design="DESIGN.md §3 C06",
    technique="property-based testing (proptest): model-based oracle (expected ownership transfer computed from the pre-state) over generated histories with failovers injected at every point",
-   text="Failover of an arbitrary registered proxy is drawn at every point of generated histories (during migrations, after earlier failovers/replacements/balance, repeated, with and without spares, ordered mode). Oracle: exact ownership transfer to the replica peers, structure of master/replica pairs, migration epoch strictly newer whenever a migration's addresses changed, allocations only from the free healthy pool.",
+   text="Failover of an arbitrary registered proxy is drawn at every point of generated histories (during migrations, after earlier failovers/replacements/balance, repeated, with and without spares, ordered mode). Oracle: exact ownership transfer to the replica peers, structure of master/replica pairs, migration epoch strictly newer whenever a migration's addresses changed, allocations only from the free healthy pool. Plus the bounded-exhaustive small-scope histories (all sequences of 3/5 operations over a 15-operation alphabet, three of them failovers).",
    note=BROKER_NOTE + " The strict clauses are only demanded when the chunk partner is healthy, as the property states."),
  "C10": dict(engine="brokersim", category="exploration", design="DESIGN.md §3 C10",
    technique="property-based testing (proptest): generated scaling chains with generated commit orders and interleaved failovers; validity predicate at every completion, refusal/no-change oracle while migrating",
-   text="Scaling chains (1..4 resize requests up and down, sizes chosen from the state, commits in generated order, interleaved failovers/balance/refused requests/stale commits, migration limits 0..3) plus general histories incl. the auto-scale API. Oracle per step (refused while migrating and nothing changed, released chunks were empty, a pending migration is always served and committable) and per completion (16384 stable slots, balance <=1, trailing empty chunks exactly as requested, cluster info).",
+   text="Scaling chains (1..4 resize requests up and down, sizes chosen from the state, commits in generated order, interleaved failovers/balance/refused requests/stale commits, migration limits 0..3) plus general histories incl. the auto-scale API. Oracle per step (refused while migrating and nothing changed, released chunks were empty, a pending migration is always served and committable) and per completion (16384 stable slots, balance <=1, trailing empty chunks exactly as requested, cluster info). Plus the bounded-exhaustive small-scope histories (all sequences of 3/5 operations over a 15-operation alphabet).",
    note=BROKER_NOTE + " Scale-out through the auto API is exercised up to its PROXY_NOT_SYNC outcome."),
  "C12": dict(engine="brokersim", category="exploration", design="DESIGN.md §3 C12",
    technique="property-based testing (proptest): invariants recomputed from the /metadata snapshot after every step of generated histories over skewed host layouts; unchanged-on-refusal oracle",
-   text="Skewed/odd host layouts, competing clusters, removals, failure reports, failovers, re-registrations. After every step: membership vs free pool complement, chunk records, broker self-check, panics caught; refused requests leave the snapshot unchanged (documented exceptions modelled); created chunks span two hosts; replacement not on the partner's host when a third host has a free healthy proxy.",
+   text="Skewed/odd host layouts, competing clusters, removals, failure reports, failovers, re-registrations. After every step: membership vs free pool complement, chunk records, broker self-check, panics caught; refused requests leave the snapshot unchanged (documented exceptions modelled); created chunks span two hosts; replacement not on the partner's host when a third host has a free healthy proxy. Plus the bounded-exhaustive small-scope histories (all sequences of 3/5 operations over a 15-operation alphabet).",
    note=BROKER_NOTE + " The replacement clause is only demanded when a host other than both the partner's and the failed proxy's own host had a free healthy proxy."),
  "C13": dict(engine="brokersim", category="exploration", design="DESIGN.md §3 C13",
    technique="property-based testing (proptest): generated crash point x snapshot point x proxy-epoch distribution; restart + epoch recovery; epoch-dominance oracle plus C01/C04 oracles on the continued history",
@@ -59,7 +59,7 @@ CHECKS = {
    note="Values are compared modulo nodes without slot ranges (not representable in the plain encoding). One known finding: an invalid/truncated CONFIG section is ignored and the default config installed (deliberate in the source)."),
  "C20": dict(engine="proxysim", category="exploration", design="DESIGN.md §3 C20",
    technique="property-based testing (proptest): model-based oracle (uncompressed reference semantics = the run with compression disabled) plus stand-in log inspection over generated write/read programs",
-   text="Two real proxies, compression strategy from SETCLUSTER CONFIG, active redirection on/off; programs of SET (with EX/PX/NX/XX/KEEPTTL), SETEX, PSETEX, SETNX, GETSET, MSET/MSETNX (1..4 pairs), GET, MGET, DEL and restricted commands entering through either proxy; values empty..1 MiB, incompressible, zstd-looking, pre-compressed. Every reply equals the model's; in the stand-in log non-value arguments are identical and value arguments zstd-decode to the request's value; restricted commands are refused and never reach Redis in set_get_only.",
+   text="Two real proxies, compression strategy from SETCLUSTER CONFIG, active redirection on/off with max_redirections 2..4 (so that a forwarded write also arrives with an exhausted redirection budget); programs of SET (with EX/PX/NX/XX/KEEPTTL), SETEX, PSETEX, SETNX, GETSET, MSET/MSETNX (1..4 pairs), GET, MGET, DEL and restricted commands entering through either proxy; values empty..1 MiB, incompressible, zstd-looking, pre-compressed. Every reply equals the model's; in the stand-in log non-value arguments are identical and value arguments zstd-decode to the request's value; restricted commands are refused and never reach Redis in set_get_only.",
    note="Multi-key commands use keys of one slot. Results of restricted commands in allow_all mode are not judged."),
  "C03": dict(engine="proxysim", category="exploration", design="DESIGN.md §3 C03",
    technique="property-based testing (proptest): generated client programs x generated message schedules against the real migration; per-key linearizability oracle (Wing-Gong search vs a sequential register-with-delete model) and admissible-final-state oracle",
@@ -67,32 +67,32 @@ CHECKS = {
    note="Interleavings are explored at message granularity on a single-thread runtime; races between two tasks of one proxy between awaits, and multi-core memory effects, are out of reach. Handshake latency is kept below max_blocking_time (the force-ahead fallback is a fault path). Error replies count as outcome-unknown."),
  "C19": dict(engine="codec+proxysim", category="exploration", design="DESIGN.md §3 C19",
    technique="property-based testing (proptest): function-level oracle over all PTTL reply classes; log-based oracle (every RESTORE justified by an earlier PTTL read) over generated migrations with forced transfer paths and sub-millisecond TTLs on a virtual clock",
-   text="(function) pttl_to_restore_expire_time over -2, -1, 0, 1, small, 2^31+-1, 2^63-1, uniform and malformed replies. (paths) real migrations with keys whose remaining TTL is generated (persistent, <1 ms so PTTL reads 0, ms, s), forced through scan / pull / push. (worlds) random C03 worlds with expiring keys. Every RESTORE reaching the destination must be justified by an earlier PTTL reply p for that key: p=-1 -> 0; p>=0 -> 1<=ttl<=max(p,1), never 0; persistent stays persistent, expiring keeps an expiry.",
+   text="(function) pttl_to_restore_expire_time over -2, -1, 0, 1, small, 2^31+-1, 2^63-1, uniform, log-uniform magnitudes 10^0..10^18 ms and malformed replies. (paths) real migrations with keys whose remaining TTL is generated (persistent, <1 ms so PTTL reads 0, ms, s, hours..centuries log-uniform), forced through scan / pull / push. (worlds) random C03 worlds with expiring keys. Every RESTORE reaching the destination must be justified by an earlier PTTL reply p for that key: p=-1 -> 0; p>=0 -> 1<=ttl<=max(p,1), never 0; persistent stays persistent, expiring keeps an expiry.",
    note="The RESTORE ttl is compared with the PTTL value read, not with the original absolute expiry. Malformed PTTL replies are outside Redis' domain: no claim."),
  "C02": dict(engine="brokersim+proxysim", category="exploration", design="DESIGN.md §3 C02",
    technique="property-based testing (proptest): broker states from generated histories delivered through the real coordinator encoding to a world of real proxies frozen in generated migration phases; routing oracle computed from the broker's JSON view, execution observed in stand-in logs",
-   text="For reachable broker states (stable, mid-migration, after failover/replacement, limited migration) every cluster member becomes a real proxy with two Redis stand-ins; metadata is sent by the real ProxyMetaRespSender (plain/compressed); the real migrations are frozen in (PreCheck,PreCheck), (Scanning,PreSwitch), (FinalSwitch,PreSwitch) or (SwitchCommitted,SwitchCommitted) by holding handshake/scan messages. From every proxy a SET is sent for every range boundary +-1 and generated slots; it must execute on exactly the node the broker designates (source before the handshake, destination after), within 1 (stable) / 3 (migrating) redirections, and no data command may appear on a foreign node.",
+   text="For reachable broker states (stable, mid-migration, after failover/replacement, limited migration) every cluster member becomes a real proxy with two Redis stand-ins; metadata is sent by the real ProxyMetaRespSender (plain/compressed); the real migrations are frozen in (PreCheck,PreCheck), (Scanning,PreSwitch), (FinalSwitch,PreSwitch) or (SwitchCommitted,SwitchCommitted) by holding handshake/scan messages; in half of the cases the metadata is then refreshed once or twice while the migration is in flight (admin epoch bump, same content re-sent with a higher epoch through the real sender). Histories that end without a cluster are continued with a creation and a scale-out. From every proxy a SET is sent for every range boundary +-1 and generated slots; it must execute on exactly the node the broker designates (source before the handshake, destination after), within 1 (stable) / 3 (migrating) redirections, and no data command may appear on a foreign node.",
    note="All cluster members are alive and synced (the property's precondition). Slots are sampled (all boundaries +-1 plus generated ones), not all 16384 per state. The blocked interval during PRESWITCH is not probed. Migration time limits stay at their defaults (time-out fallbacks are fault paths)."),
  "C14": dict(engine="proxysim", category="exploration", design="DESIGN.md §3 C14",
    technique="property-based testing (proptest): independent parser of CLUSTER NODES/SLOTS over hand-built cluster maps with arbitrary migration-state maps, and over real proxies of reachable broker states frozen in generated migration phases; agreement oracle with routing probes",
-   text="(maps) ClusterBackendMap with generated segments (stable local/peer, migrating out, importing, third-party migration, gaps), arbitrary state maps, both NODES versions: each covered slot exactly once in NODES and SLOTS at the same address, one myself line, stable slots advertised where a probe executes / is MOVED to, migrating slots at source iff PreCheck else destination, bystander either side once. (phases) the C02 worlds: NODES/SLOTS of every proxy (source, destination, bystander) in each frozen phase.",
+   text="(maps) ClusterBackendMap with generated segments (stable local/peer, migrating out, importing, third-party migration, gaps), arbitrary state maps, both NODES versions: each covered slot exactly once in NODES and SLOTS at the same address, one myself line, stable slots advertised where a probe executes / is MOVED to, migrating slots at source iff PreCheck else destination, bystander either side once. (phases) the C02 worlds, including the in-flight metadata refreshes: NODES/SLOTS of every proxy (source, destination, bystander) in each frozen phase.",
    note="A bystander (no state for the range) may advertise either side; a proxy that holds no state yet for its own migration may advertise either side."),
  "C08": dict(engine="conn", category="fault_enumeration", design="DESIGN.md §3 C08",
    technique="property-based testing / fault injection (proptest): generated request pipelines against a scripted backend that fragments, coalesces, delays, stalls and cuts the reply byte stream at generated positions; identity oracle (a reply carries the id of the request it answers) and exactly-once/ordering oracle",
-   text="(backend-node) the real BackendNode/handle_backend/ReplyCommitHandler with real CmdCtx tasks over the real RespCodec on an in-memory duplex stream; per connection a generated plan (refuse, latency, byte fragmentation, coalescing, stall beyond backend_timeout, cut after byte n / request m, then reconnect), batching disabled/fixed/dynamic: every request resolves exactly once in bounded virtual time, successes carry their own id, the backend sees a request at most retry-budget+1 times, reconnect storms are detected. (session) the full stack over loopback TCP: real handle_session -> ForwardHandler -> scripted backend with fragmented client writes and interleaved locally-answered commands: reply k answers request k.",
-   note="Fault positions are generated (random plans), not exhaustively enumerated per pipeline. The TCP layer runs in real time."),
+   text="(backend-node) the real BackendNode/handle_backend/ReplyCommitHandler with real CmdCtx tasks over the real RespCodec on an in-memory duplex stream; per connection a generated plan (refuse, latency, byte fragmentation, coalescing, stall beyond backend_timeout, cut after byte n / request m, then reconnect), batching disabled/fixed/dynamic: every request resolves exactly once in bounded virtual time, successes carry their own id, the backend sees a request at most retry-budget+1 times, reconnect storms are detected; replies of varying RESP shape (bulk, nested array with nil/integer, error, simple string, 9 KiB bulk) must arrive unaltered; back-pressure: the backend stops reading over a 16..2048-byte pipe while padded requests exceed the product's 8 KiB write buffer. (enumerated) fixed pipelines x EVERY cut position of the first connection's reply byte stream and every cut-after-request count x 3 batching strategies x 3 fragmentations x 2 coalescing factors x second connection {clean, refused once, cut again, cut on 5 consecutive connections}. (session) the full stack over loopback TCP: real handle_session -> ForwardHandler -> scripted backend with fragmented client writes and interleaved locally-answered commands: reply k answers request k; a quarter of the cases use a lazy reader (small socket buffers, 9 KiB replies, the client starts reading 150 ms after pipelining everything).",
+   note="Cut positions are exhaustively enumerated for the fixed pipelines of the enumerated sub-check only; elsewhere fault positions are generated. The TCP layer runs in real time."),
  "C16": dict(engine="proxysim", category="exploration", design="DESIGN.md §3 C16",
    technique="fuzzing-style property-based testing (proptest) with process isolation: byte streams and structured commands with extreme arguments executed in child worker processes; oracles: process survival, panic log, counting-allocator memory bound, bounded completion time, liveness of a second connection",
-   text="Inputs are run in child processes of the harness (an abort, stack overflow or refused giant allocation is an observation). Byte streams with hostile length prefixes, nesting to depth 200000, truncations and raw bytes; well-formed commands of every family the executor special-cases with arguments from {missing, empty, non-UTF-8, 0, -1, 2^62, 2^63-1, 2^64-1, 2^64, long digits, keywords, long strings}, before and after metadata is set, compression on/off. No death, no panic on any thread, peak memory <= 16 MiB + 4096 x bytes received, completion within 8 s wall (triple-confirmed) / 3600 virtual s, a second connection keeps being served.",
-   note="The session is driven in-process through the real decoder, Session::handle_cmd/handle_slowlog and ForwardHandler (the TCP accept loop is not in the loop). This is the only check where a wall-clock limit is part of the oracle. Build profile: debug assertions and overflow checks ON for undermoon."),
+   text="Inputs are run in child processes of the harness (an abort, stack overflow or refused giant allocation is an observation). Byte streams with hostile length prefixes, nesting to depth 200000, truncations and raw bytes; well-formed commands of every family the executor special-cases with arguments from {missing, empty, non-UTF-8, 0, -1, 2^62, 2^63-1, 2^64-1, 2^64, long digits, keywords, long strings}, before and after metadata is set, compression on/off. No death, no panic on any thread, peak memory <= 16 MiB + 4096 x bytes received, completion within 8 s wall (triple-confirmed) / 3600 virtual s, a second connection keeps being served. (tcp) the same input classes written in generated fragments on a real loopback TCP connection served by the real handle_session behind an accept loop, with the client reading normally / disconnecting without reading / half-closing: every complete request ahead of malformed data is answered or the connection closed within 6 s (three attempts), a second TCP connection is served meanwhile, both session tasks end after the clients are gone.",
+   note="Sub-check inputs drives the session in-process through the real decoder, Session::handle_cmd/handle_slowlog and ForwardHandler; sub-check tcp adds the real handle_session over loopback TCP (the listener setup of server.rs is not in the loop). This is the only check where a wall-clock limit is part of the oracle. Build profile: debug assertions and overflow checks ON for undermoon."),
  "C11": dict(engine="sched", category="fault_enumeration", design="DESIGN.md §3 C11",
    technique="schedule exploration with a deterministic cooperative scheduler (generated schedules via proptest + bounded exhaustive enumeration of schedule prefixes) over the real blocking queue; invariant over the logically time-stamped event log",
-   text="The real BlockingMap/TaskBlockingQueue/BlockingHandle run on real OS threads (1..3 senders, 1..2 controllers, a completer) of which exactly one is runnable at a time; context switches happen only at the scheduling points hook H3 places before every shared-memory access of proxy/blocking.rs. Generated byte-vector schedules plus every schedule prefix of length 7 (quick) / 9 (thorough) for 2 senders x 1 controller. No command is handed to the source Redis while a controller has observed blocking_done and not yet lifted blocking; every command ends in exactly one outcome; at quiescence nothing is queued and no command is counted as running.",
+   text="The real BlockingMap/TaskBlockingQueue/BlockingHandle run on real OS threads (1..3 senders, 1..2 controllers, a completer) of which exactly one is runnable at a time; context switches happen only at the scheduling points hook H3 places before every shared-memory access of proxy/blocking.rs and between the load and the compare-exchange of common/biatomic.rs. Generated byte-vector schedules plus every schedule prefix of length 7 (quick) / 9 (thorough) for 2 senders x 1 controller and of length 6 / 9 for 1 sender x 2 controllers. No command is handed to the source Redis while a controller has observed blocking_done and not yet lifted blocking; every command ends in exactly one outcome; at quiescence nothing is queued and no command is counted as running.",
    note="Sequentially consistent interleavings only (the atomics are SeqCst); crossbeam channel internals are trusted; an access the hooks miss is not pre-empted; the exhaustive part is exhaustive only up to the stated prefix length."),
  "C07": dict(engine="proxysim+brokersim", category="fault_enumeration", design="DESIGN.md §3 C07",
    technique="fault injection over generated scripts plus exhaustive single-fault / single-crash-point enumeration of a reference script, against a world built from the real coordinator components, real proxies and the real broker; safety invariants after every step and bounded-convergence oracle",
-   text="Coordinator rounds are assembled from the real components (hook H1) exactly as CoordinatorService does, with the real in-memory broker behind the coordinator's broker traits and 6..12 real proxies on the fake network. Scripts mix admin operations, rounds of one or two coordinators (also concurrently), proxy restarts/kills and a fault plan addressed by call signature x occurrence (drop request, drop reply, duplicate) or a coordinator crash at its n-th outgoing call. Every single fault (10 call kinds x 8 occurrences x 3 types) and every crash point (7 steps x 24 calls) of a reference scale-out script is enumerated. No proxy epoch ever decreases except across its own restart; no migration is committed twice; after faults stop, clean cycles bring every reachable non-failed proxy to the broker's view (epoch, roles, routing) with no finished migration left; a lone fault-free migration round updates the destination before the source.",
-   note="Liveness is checked as bounded convergence: only a stuck state (24 clean cycles, the last 6 identical) is a violation. The broker is reached in-process through the coordinator's broker traits (no HTTP). Fault positions in generated scripts are random; exhaustive only for the reference script."),
+   text="Coordinator rounds are assembled from the real components (hook H1) exactly as CoordinatorService does, with the real in-memory broker behind the coordinator's broker traits and 6..12 real proxies on the fake network. Scripts mix admin operations, rounds of one or two coordinators (also concurrently), proxy restarts/kills and a fault plan addressed by call signature x occurrence (drop request, drop reply, duplicate, delivery delayed by 20 ms / 2 s of virtual time = reordered / stale delivery) or a coordinator crash at its n-th outgoing call. Every single fault (10 call kinds x occurrences x 5 types) and every crash point (step x call) of three reference scripts (scale-out with migration; proxy death detected by two coordinators, failover, replacement; scale-in under migration_limit 1) is enumerated; the thorough tier adds every pair of faults of the first script. No proxy epoch ever decreases except across its own restart; no migration is committed twice; after faults stop, clean cycles bring every reachable non-failed proxy to the broker's view (epoch, roles, routing) with no finished migration left; a lone fault-free migration round updates the destination before the source.",
+   note="Liveness is checked as bounded convergence: only a stuck state (24 clean cycles, the last 6 identical) is a violation. The broker is reached in-process through the coordinator's broker traits (no HTTP). Fault positions in generated scripts are random; exhaustive only for the reference scripts."),
 }
 
 NOT_YET = {}
